@@ -285,7 +285,18 @@ def mk_diff(ctx):
     return once, vd
 
 
+def check_digit_assumptions(ctx):
+    """the hypotheses of C18_parse about `\\d`/int(), checked against the live `re` and `int`"""
+    for ch in (ESC, CSI8, ";", "R", "["):
+        if re.match(r"\d", ch):
+            ctx.violation("assumption broken: re `\\d` matches %r" % ch, dict(kind="digits", ch=ch), None)
+    for ch, v in DIGITS.items():
+        if not re.match(r"\d", ch) or int(ch) != v:
+            ctx.violation("assumption broken: digit table entry %r" % ch, dict(kind="digits", ch=ch), None)
+
+
 def check(ctx):
+    check_digit_assumptions(ctx)
     gcp = mk_gcp(ctx)
     outs = {}
 
